@@ -24,7 +24,9 @@ Definition check_ptr_block (img : mem) (b : block) (pcs : list (N * var)) (S : b
       match run_pow ww sg b.(b_depth) (init m0 []) [] with
       | Halt Looping s wl =>
           (s.(ip) =? xa) && out_is s.(outp) marker && vals_in_range b.(b_vars) vs' &&
-          forallb (word_ok b s.(m) me) wl && forallb (word_ok b s.(m) me) (1 :: vars_words b.(b_vars)) &&
+          (* word 0 (target of every `;label` op's null flip) is on the log once per op: it is checked once, below *)
+          forallb (fun a => match a with 0 => true | _ => word_ok b s.(m) me a end) wl &&
+          forallb (word_ok b s.(m) me) (0 :: 1 :: vars_words b.(b_vars)) &&
           ptr_consistent_b ww pcs s.(m)
       | _ => false
       end
